@@ -260,7 +260,25 @@ type commonReach struct {
 
 func (cr *commonReach) observe(ev *PEvent, ps *PState) {
 	st := cr.st
+	if ev.Wrapped {
+		switch {
+		case ev.Op.K == "shrink" && ev.Delta > 0:
+			st.Inc("wrap:shrink_discarding")
+		case ev.Op.K == "readfrom" && ev.N > 0:
+			st.Inc("wrap:refills")
+		case isParseOK(ev) && len(ev.Blk.Sequences) > 0:
+			st.Inc("wrap:blocks_with_match")
+		}
+	}
 	switch ev.Op.K {
+	case "wparse":
+		st.Inc("wrap:parse_calls")
+		if ev.InnerCalls > 1 {
+			st.Inc("wrap:parse_calls_that_refilled")
+		}
+		if ev.Err != nil {
+			st.Inc("wrap:parse_" + errName(ev.Err))
+		}
 	case "shrink":
 		if ev.Delta > 0 {
 			cr.shrinkPos++
@@ -348,7 +366,7 @@ func init() {
 		base: base{id: "C01", level: "exploration",
 			rule:        "seeded random parser histories (Write/ReadFrom with chunk plans/Parse with both flags/Shrink/Reset incl. aliasing paths) over boundary-biased small configurations of all 7 parsers and adversarial byte families; a fixed-seed directed corpus is included; a case is non-trivial iff it contains a block with a match parsed after a Shrink that discarded bytes or after a Reset; distinct = distinct concrete case (fingerprint of config+stream+ops)",
 			assumptions: []string{"the harness' byte-list expander and model of fed bytes are correct", "Write/ReadFrom counts are trusted for the model (C15 decides them)"},
-			mandatory:   []string{"blocks_with_match", "shrink_discarding", "blocks_with_match_after_shrink_or_reset", "matches_with_source_retained_across_shrink", "reset_mode2", "blocks_ntl"},
+			mandatory:   []string{"blocks_with_match", "shrink_discarding", "blocks_with_match_after_shrink_or_reset", "matches_with_source_retained_across_shrink", "reset_mode2", "blocks_ntl", "wrap:blocks_with_match", "wrap:refills", "wrap:shrink_discarding", "wrap:parse_EOF"},
 			expected:    []string{"overlapping_matches", "reset_mode3", "matches_with_source_before_block"}},
 		types: gen.ParserTypes, quickN: 12000, thorMul: 80, corpusN: 300, large: true,
 		weights: DefaultWeights,
@@ -433,10 +451,10 @@ func init() {
 		base: base{id: "C02", level: "exploration",
 			rule:        "same history executor as C01 with WindowSize drawn smaller/equal/larger than BufferSize, ShrinkSize and BlockSize (incl. WindowSize 1 and MinMatchLen) and LZ-synthetic strings with repeats exactly at distance WindowSize-1/WindowSize/WindowSize+1; every sequence of every block is checked; non-trivial iff the history produced at least one block with a match; distinct = distinct concrete case",
 			assumptions: []string{"positions are tracked by the harness' model of the stream; WindowSize and minimum match length are taken from the explicit configuration fields (defaults via the library's SetDefaults)"},
-			mandatory:   []string{"sequences", "offset==WindowSize", "matchlen==minimum", "shrink_discarding", "offset==stream_position"},
+			mandatory:   []string{"sequences", "offset==WindowSize", "matchlen==minimum", "shrink_discarding", "offset==stream_position", "wrap:blocks_with_match"},
 			expected:    []string{"offset==WindowSize-1", "matchlen==MaxMatchLen"}},
 		types: gen.ParserTypes, quickN: 12000, thorMul: 80, corpusN: 300, large: true,
-		weights: HWeights{Write: 18, ReadFrom: 8, Parse: 30, ParseNTL: 10, ParseNil: 6, Shrink: 14, Reset: 1, ResetData: 2, Faults: true},
+		weights: HWeights{Write: 18, ReadFrom: 8, Parse: 30, ParseNTL: 10, ParseNil: 6, Shrink: 14, Reset: 1, ResetData: 2, WParse: 8, Faults: true},
 		tweak: func(r *rand.Rand, pc *PCase, kind string) {
 			// windows smaller than the data so that the guard is under load
 			if r.Intn(2) == 0 {
@@ -573,10 +591,10 @@ func init() {
 		base: base{id: "C03", level: "exploration",
 			rule:        "same history executor as C01; every Parse call is checked with both flag values occurring at every call site (sentinel content is put into the block before each call); non-trivial iff the history has >= 3 Parse calls and a block with a match; distinct = distinct concrete case",
 			assumptions: []string{"n == min(BlockSize, unparsed) is deliberately NOT asserted for a normal Parse (C03 does not state it)"},
-			mandatory:   []string{"quadrant:flags0,seqs", "quadrant:flags0,noseqs", "quadrant:ntl,seqs", "quadrant:ntl,noseqs", "empty_buffer_reports", "unparsed>BlockSize", "unparsed<BlockSize", "second_parse_of_a_fill", "ntl_blocks_with_bytes_offered_again"},
+			mandatory:   []string{"quadrant:flags0,seqs", "quadrant:flags0,noseqs", "quadrant:ntl,seqs", "quadrant:ntl,noseqs", "empty_buffer_reports", "unparsed>BlockSize", "unparsed<BlockSize", "second_parse_of_a_fill", "ntl_blocks_with_bytes_offered_again", "wrap:parse_calls_that_refilled", "wrap:blocks_with_match"},
 			expected:    []string{"unparsed==BlockSize"}},
 		types: gen.ParserTypes, quickN: 12000, thorMul: 80, corpusN: 300, large: true,
-		weights: HWeights{Write: 18, ReadFrom: 8, Parse: 26, ParseNTL: 22, ParseNil: 0, Shrink: 10, Reset: 1, ResetData: 2, Faults: true},
+		weights: HWeights{Write: 18, ReadFrom: 8, Parse: 26, ParseNTL: 22, ParseNil: 0, Shrink: 10, Reset: 1, ResetData: 2, WParse: 10, Faults: true},
 		newObs: func(pc *PCase, ps *PState, c *core.Case, st *core.Stats) histObserver {
 			return &c03obs{cr: commonReach{st: st}, st: st}
 		},
@@ -662,10 +680,10 @@ func init() {
 		base: base{id: "C14", level: "exploration",
 			rule:        "parser histories with about 30% Parse(nil) calls interleaved with Parse(&blk), Write, ReadFrom and Shrink for all 7 parsers; the reference expansion receives the skipped bytes verbatim; non-trivial iff the history contains a Parse(nil) and a later block with a match; distinct = distinct concrete case",
 			assumptions: []string{"matches that reference skipped bytes are counted, not required (the property grants permission only)"},
-			mandatory:   []string{"parse_nil_skips", "parse_nil_empty", "parse_nil_partial_drain", "blocks_after_skip", "matches_referencing_skipped_bytes"},
+			mandatory:   []string{"parse_nil_skips", "parse_nil_empty", "parse_nil_partial_drain", "blocks_after_skip", "matches_referencing_skipped_bytes", "wrap:parse_calls_that_refilled"},
 		},
 		types: gen.ParserTypes, quickN: 12000, thorMul: 80, corpusN: 300, large: true,
-		weights: HWeights{Write: 18, ReadFrom: 8, Parse: 22, ParseNTL: 8, ParseNil: 22, Shrink: 12, Reset: 1, ResetData: 1, Faults: true},
+		weights: HWeights{Write: 18, ReadFrom: 8, Parse: 22, ParseNTL: 8, ParseNil: 22, Shrink: 12, Reset: 1, ResetData: 1, WParse: 10, Faults: true},
 		newObs: func(pc *PCase, ps *PState, c *core.Case, st *core.Stats) histObserver {
 			return &c14obs{cr: commonReach{st: st}, st: st}
 		},
